@@ -115,8 +115,33 @@ def tag_dispatch(ctx, r):
                              f"{owner}::{f['name']}: the arm for ObjectKind::{k} reinterprets the header as {c}; objects of that kind are {want}",
                              sample=f"{f['name']}: kind {k} -> {c}")
                     for fr in frees:
-                        r.ob(fr == style.get(want), f"vm.rs:{f['name']}:{k}:free-{fr}", VM, arm["l"],
-                             f"{owner}::{f['name']}: ObjectKind::{k} objects are allocated with {style.get(want)} but freed with {fr}",
+                        same = fr == style.get(want)
+                        why = ""
+                        if not same and fr == "alloc" and style.get(want) == "box":
+                            # handing a boxed object's block straight back to the allocator is the same as dropping the Box only if
+                            # nothing inside it owns memory (no Arc / Vec / Box / String .. field whose drop would be skipped) and
+                            # the layout is that of the type
+                            import re as _re
+
+                            sd = q.find_struct(items, want)
+                            aliases = {it["name"]: it["ty"] for it, _ in q.iter_items(items) if it["k"] == "TypeAlias"}
+
+                            def expand(t, depth=0):
+                                for nm, tt in aliases.items():
+                                    if depth < 4 and _re.search(r"\b" + nm + r"\b", t):
+                                        t = t + " " + expand(tt, depth + 1)
+                                return t
+
+                            owning = [fl["name"] for fl in (sd["fields"] if sd else []) if _re.search(r"\b(Arc|Rc|Vec|VecDeque|Box|String|Mutex|RwLock|HashMap|HashSet|BTreeMap)\b", expand(fl["ty"]))]
+                            def full(e):
+                                return " ".join(str(y.get("full") or y.get("p") or "") for y in q.walk(e) if y["k"] == "Path")
+
+                            lay = {b: full(l_["init"]) for l_ in q.walk(arm["body"]) if l_["k"] == "Local" and l_.get("init") is not None for b in q.pat_bindings(l_["pat"])}
+                            layout_ok = any(x["k"] == "Call" and x["f"]["k"] == "Path" and x["f"]["p"] in ("dealloc", "std::alloc::dealloc", "alloc::dealloc") and len(x["args"]) >= 2 and f"Layout::new::<{want}>" in lay.get(q.show(x["args"][1]), full(x["args"][1])).replace(" ", "") for x in q.walk(arm["body"]))
+                            same = sd is not None and not owning and layout_ok
+                            why = f" (its field(s) {owning} own memory that only dropping the Box releases: the block is returned but what they point to leaks)" if owning else ""
+                        r.ob(same, f"vm.rs:{f['name']}:{k}:free-{fr}", VM, arm["l"],
+                             f"{owner}::{f['name']}: ObjectKind::{k} objects are allocated with {style.get(want)} but freed with {fr}{why}",
                              sample=f"{f['name']}: kind {k} allocated {style.get(want)} freed {fr}")
     r.count("matches on ValueTag of a value", n_tag, 1, VM)
     r.count("matches on ObjectKind", n_kind, 3, VM)
